@@ -8,6 +8,8 @@ unmodified library code.
 
 from __future__ import annotations
 
+from ..vloop import texc
+
 from typing import Any, Callable
 
 from xknx import XKNX
@@ -58,7 +60,7 @@ class CoreWorld(World):
     def start(self, connected: bool = True) -> None:
         t = self.spawn(self.xknx.start(), name="harness-start")
         self.loop.settle()
-        assert t.done() and t.exception() is None, t
+        assert t.done() and texc(t) is None, t
         if connected:
             self.connect()
 
